@@ -62,6 +62,7 @@ var dists = []dist{
 // plan: which distributions run, how many worker processes each gets, depth.
 type planItem struct {
 	Dist, Workers, Depth int
+	Unreg                bool // add claim cU (deposit of an unregistered token) to the alphabet
 }
 
 func plan() []planItem {
@@ -75,16 +76,17 @@ func plan() []planItem {
 		if n == 0 {
 			n = 1
 		}
-		return []planItem{{i, n, d}}
+		return []planItem{{i, n, d, os.Getenv("C02_UNREG") != ""}}
 	}
 	if report.Tier() == "thorough" {
-		return []planItem{{0, 5, 7}, {1, 2, 6}, {2, 1, 6}, {3, 3, 8}, {4, 5, 6}}
+		return []planItem{{0, 6, 7, false}, {1, 2, 6, true}, {2, 2, 6, true}, {3, 1, 7, true}, {4, 5, 6, false}}
 	}
-	return []planItem{{0, 7, 6}, {1, 7, 6}, {2, 2, 5}}
+	return []planItem{{0, 7, 6, false}, {1, 7, 6, false}, {2, 2, 5, false}}
 }
 
 type slot struct {
 	Dist, Sub, NSub, Depth int
+	Unreg                  bool
 }
 
 func slots() []slot {
@@ -95,7 +97,7 @@ func slots() []slot {
 			p.Depth = depthCap
 		}
 		for s := 0; s < p.Workers; s++ {
-			out = append(out, slot{p.Dist, s, p.Workers, p.Depth})
+			out = append(out, slot{p.Dist, s, p.Workers, p.Depth, p.Unreg})
 		}
 	}
 	return out
@@ -206,7 +208,7 @@ func run(r *report.Run, shard, nshards int, replayFile string) {
 		found := false
 		for i, d := range dists {
 			if d.Name == m["scenario"] {
-				sl = slot{Dist: i, Sub: 0, NSub: 1, Depth: len(path)}
+				sl = slot{Dist: i, Sub: 0, NSub: 1, Depth: len(path), Unreg: true}
 				found = true
 			}
 		}
@@ -231,7 +233,7 @@ func run(r *report.Run, shard, nshards int, replayFile string) {
 		e.keepDepth = kd
 	}
 
-	r.Rule = "BFS over Vote(v,claim) (really signed MsgSendToPalomaClaim / MsgBatchSendToRemoteClaim txs through ante + router) for competing claims cA,cB (deposits of 7 / 9, same nonce 1), cX (batch-executed, nonce 1), cC (deposit, nonce 2) [thorough: + cU, deposit of an unregistered token, nonce 1]; Tally (skyway.EndBlocker); CatchUp (skyway.EndBlocker at height 150 => UpdateValidatorNoncesToLatest); Power(v,p) p in {0, p0, 2*p0} (staking last-validator-power + last-total-power); Override(k) k in {last-1,last,last+1} (MsgNonceOverrideProposal by the gov authority); one search per stake distribution (quick: 34-33-33 and 50-30-20 to depth 6, 1-1-1 to depth 5; thorough: 34-33-33 depth 7, 50-30-20 / 1-1-1 / 25-25-25-25 depth 6, 67-33 depth 8); a state is distinct by (skyway store, last powers, ghost voter sets / observed set / epoch cursor); oracle after every step: each newly Observed claim has distinct-voter power*100 > 66*total, is the only one at its nonce in this reset epoch and sits at cursor+1; cursor moves only by observation / reset; receiver balance, supply, escrow and batch deletion equal the observed claims' effects applied exactly once; Observed never reverts; a rejected vote leaves the skyway store byte-identical"
+	r.Rule = "BFS over Vote(v,claim) (really signed MsgSendToPalomaClaim / MsgBatchSendToRemoteClaim txs through ante + router) for competing claims cA,cB (deposits of 7 / 9, same nonce 1), cX (batch-executed, nonce 1), cC (deposit, nonce 2) [thorough, except 34-33-33 and 25-25-25-25: + cU, deposit of an unregistered token, nonce 1]; Tally (skyway.EndBlocker); CatchUp (skyway.EndBlocker at height 150 => UpdateValidatorNoncesToLatest); Power(v,p) p in {0, p0, 2*p0} (staking last-validator-power + last-total-power); Override(k) k in {last-1,last,last+1} (MsgNonceOverrideProposal by the gov authority); one search per stake distribution (quick: 34-33-33 and 50-30-20 to depth 6, 1-1-1 to depth 5; thorough: 34-33-33 and 67-33 depth 7, 50-30-20 / 1-1-1 / 25-25-25-25 depth 6); a state is distinct by (skyway store, last powers, ghost voter sets / observed set / epoch cursor); oracle after every step: each newly Observed claim has distinct-voter power*100 > 66*total, is the only one at its nonce in this reset epoch and sits at cursor+1; cursor moves only by observation / reset; receiver balance, supply, escrow and batch deletion equal the observed claims' effects applied exactly once; Observed never reverts; a rejected vote leaves the skyway store byte-identical"
 	r.Assumptions = []string{
 		"a validator 'has voted for a claim' once a vote transaction of it for that claim hash succeeded, in any reset epoch (weakest reading: earlier votes keep counting after a reset, but only once per validator)",
 		"every successful MsgNonceOverrideProposal starts a new reset epoch, also when it writes the value the cursor already has (weakest reading: fewer constraints)",
@@ -331,7 +333,7 @@ func setup(r *report.Run, sl slot) *env {
 		return world.BatchExecutedClaim(v, ref, 1, 1, e.batchNonce, erc20Reg)
 	}})
 	dep("cC", 2, erc20Reg, 5, "deposit")
-	if r.Thorough() {
+	if sl.Unreg {
 		dep("cU", 1, erc20Unk, 3, "deposit-unregistered")
 	}
 	for i, c := range e.claims {
